@@ -84,6 +84,32 @@ Theorem c11_nearby_radius : forall test max_dist order limit,
 Proof. exact nearby_pages. Qed.
 Print Assumptions c11_nearby_radius.
 
+(* COUNT output goes through the same iteration but never touches numberItems / hitLimit: with the
+   same cursor and LIMIT it answers the number of items the item outputs (IDS, OBJECTS, POINTS,
+   BOUNDS, HASHES) put on that page.  The output kind takes no part in pagination. *)
+Theorem c11_count_eq_items : forall (A : Type) (test stop : A -> bool) (src : list A) (c limit : N),
+  1 <= limit ->
+  count_query test stop src c limit = N.of_nat (length (fst (page test stop src c limit))).
+Proof. exact @count_eq_items. Qed.
+Print Assumptions c11_count_eq_items.
+
+(* the COUNT shortcut of cmdScan / cmdSearch (no filter) capped by LIMIT — the repaired form of
+   proposed_fixes/C12-count-shortcut-limit.diff — never changes the result *)
+Theorem c11_count_shortcut_capped : forall (A : Type) (src : list A) (cursor limit : N),
+  1 <= limit ->
+  count_shortcut src cursor limit = count_query (fun _ => true) (fun _ => false) src cursor limit.
+Proof. exact @count_shortcut_exact. Qed.
+Print Assumptions c11_count_shortcut_capped.
+
+(* the shortcut as it is today ignores LIMIT: SCAN k LIMIT 2 COUNT on 6 objects answers 6, the
+   counting iteration (any filter that accepts everything) and IDS give 2.  Property C12's "count
+   shortcuts never change results"; reported to C12, recorded by the C11 harness as an observation. *)
+Theorem c11_count_shortcut_unpatched_refuted :
+  exists (src : list N) cursor limit, 1 <= limit /\
+    count_shortcut_unpatched src cursor <> count_query (fun _ => true) (fun _ => false) src cursor limit.
+Proof. exists [1; 2; 3; 4; 5; 6], 0, 2. split; [discriminate | vm_compute; discriminate]. Qed.
+Print Assumptions c11_count_shortcut_unpatched_refuted.
+
 (* non-vacuity: 7 entries, a filter that rejects two of them, an early exit at the 7th, LIMIT 2:
    three pages with cursors 2, 5 (limit hit on the last accepted entry) and 0 *)
 Example c11_nonvacuous :
